@@ -18,7 +18,7 @@ TYPES = {
     "interval": ["interval '1' day", "interval '-2' month", "cast('1 day 2 hours 3 seconds' as interval)", "interval '0' day", "cast('30 hours' as interval)",
                  "cast('24 hours' as interval)", "cast('90 minutes' as interval)", "null"],
     "vector(3)": ["'[1,2,3]'", "'[0.5,-1,1e3]'"],
-    "blob": ["'\\x00ff'", "'abc'", "'a''b'", "'c\\d,e'", "'q\"uo'", "null"],
+    "blob": ["'\\x00ff'", "'abc'", "'a''b'", "'c\\d,e'", "'q\"uo'", "''", "null"],
     "varchar": ["'a'", "''", "'a,b'", "'say \"hi\"'", "'it''s'", "'l1\nl2'", "' lead'", "'NULL'", "'x|y'", "'tab\there'", "'say \"hi\", it''s me'", "'q\"|\"q'",
                 "'back\\slash'", "'b\\\"q,d'", "'trail '", "' '", "'\\'", "null"],
 }
